@@ -8,6 +8,7 @@
 (*   "app"        ApplicationError(uri, *args, **kwargs)                   *)
 (*   "decorated"  class decorated with @wamp.error(uri), defined on the    *)
 (*                session                                                  *)
+(*   "decorated2" class decorated with two URIs: both ends use the same one  *)
 (*   "defined"    plain class made known with session.define(cls, uri)     *)
 (*   "undefined"  any other exception class                                *)
 (*   "definedsub" a subclass of a defined class, itself defined with its   *)
@@ -24,11 +25,11 @@
 (***************************************************************************)
 EXTENDS Naturals, TLC
 
-Kinds == {"app", "decorated", "defined", "undefined", "definedsub", "undefsub", "appsub", "appsubundef"}
+Kinds == {"app", "decorated", "decorated2", "defined", "undefined", "definedsub", "undefsub", "appsub", "appsubundef"}
 Registry == {"same", "badctor", "none"}
 
 \* which URI the ERROR carries: "carried" (the application error's own), "registered", "runtime" (wamp.error.runtime_error)
-WireUri(kind) == CASE kind \in {"app", "appsub", "appsubundef"} -> "carried" [] kind \in {"decorated", "defined", "definedsub"} -> "registered" [] OTHER -> "runtime"
+WireUri(kind) == CASE kind \in {"app", "appsub", "appsubundef"} -> "carried" [] kind \in {"decorated", "decorated2", "defined", "definedsub"} -> "registered" [] OTHER -> "runtime"
 
 \* what the caller's call fails with: the registered class if there is one that can be constructed, else the generic error
 CallerClass(reg) == IF reg = "same" THEN "registered" ELSE "generic"
